@@ -323,14 +323,18 @@ def check_c16(tier):
     # (ii-s) every operation sequence of a registry-with-misuse alphabet, exception build: histories continue through caught failures
     res2s = run_space(exx, "c16s", tier, os.path.join(bx.dir, "c16sx.out"), extra=["--seqdepth", "5" if tier == "thorough" else "4"])
     add_violations(rep, res2s, "C16", build="exceptions")
+    # (i-s) the same alphabet in the exit() build: a fatal operation ends its branch (exit status 1 + message, anything else is a violation),
+    # so one level deeper is affordable: every history of up to 4 (thorough 5) non-fatal operations followed by every misuse
+    res1s = run_space(exe, "c16s", tier, os.path.join(b.dir, "c16s.out"), extra=["--seqdepth", "6" if tier == "thorough" else "5"])
+    add_violations(rep, res1s, "C16", build="exit")
     # (iii) empty history: every solution-dependent API entry before any masa_init
     res3 = run_empty_history(b, exe, rep)
-    cover(rep, [res1, res2, res1n, res2n, res1v, res2v, res2s, res1l, res2l])
+    cover(rep, [res1, res2, res1n, res2n, res1v, res2v, res2s, res1s, res1l, res2l])
     fatal_t = sum(1 for r in (res1, res2, res1n, res2n, res1v, res2v) for t in r["trans"] if t[3])
     rep.coverage["fatal_transitions_checked"] = fatal_t
     rep.coverage["empty_history_calls"] = res3
     rep.coverage["states"] += res3; rep.coverage["transitions"] += res3; rep.coverage["traces_validated_against_impl"] += res3
-    rep.assumptions += ["same alphabet as C12 plus select(unknown), init(new handle, bogus name), init(existing handle, misspelt name), select(handle spelled like a solution name of the alphabet) in both registries; space c16l: registered handles of 32..64 characters sharing their first character with the unknown handle selected; space c16s (exception build): all operation sequences up to depth 4 (thorough 5) of an 11-operation registry alphabet with four misuse operations, nothing merged, the history continuing through every caught failure; space c16v: two handles owning 600-entry vectors (radiation, cp_normal), failed re-initialisation of either handle and of a new one, select(unknown): vectors of every instance unchanged by the failed call; space c16n: handles {a, euler_1d} that may be spelled like the catalogue name of their own or another solution, select of registered/unregistered/decorated spellings; exit() build observed through wait status and captured stdout, exception build through catch(int)"]
+    rep.assumptions += ["same alphabet as C12 plus select(unknown), init(new handle, bogus name), init(existing handle, misspelt name), select(handle spelled like a solution name of the alphabet) in both registries; space c16l: registered handles of 32..64 characters sharing their first character with the unknown handle selected; space c16s (exception build): all operation sequences up to depth 4 (thorough 5) of an 11-operation registry alphabet with four misuse operations, nothing merged, the history continuing through every caught failure, and in the exit() build all sequences up to depth 5 (thorough 6) in which a misuse operation ends the branch with exit status 1 and the FATAL message; space c16v: two handles owning 600-entry vectors (radiation, cp_normal), failed re-initialisation of either handle and of a new one, select(unknown): vectors of every instance unchanged by the failed call; space c16n: handles {a, euler_1d} that may be spelled like the catalogue name of their own or another solution, select of registered/unregistered/decorated spellings; exit() build observed through wait status and captured stdout, exception build through catch(int)"]
     return rep.finish()
 
 
